@@ -241,7 +241,8 @@ def simple_md(draw, ids, distinct=False):
 
 FORMS = ["dense", "dense", "lists", "triples", "dict", "csr", "csc", "coo",
          "lil", "dok", "csr_unsorted", "csr_unsorted", "csr_unsorted",
-         "csr_zeros", "csc_zeros", "coo_zeros", "list_arrays"]
+         "csr_zeros", "csc_zeros", "coo_zeros", "list_arrays", "dense_f",
+         "dense_view"]
 
 
 # only for checks whose ground truth is read from the built table (the
@@ -257,6 +258,14 @@ def encode(rows, form, zeros_mask=None):
     n, m = a.shape
     if form == "dense":
         return a.copy(), {}
+    if form == "dense_f":
+        # the same array in column-major memory order
+        return np.asfortranarray(a), {}
+    if form == "dense_view":
+        # a non-contiguous view: every other cell of a larger buffer
+        buf = np.full((n * 2 + 1, m * 2 + 1), 7.0)
+        buf[:n * 2:2, :m * 2:2] = a
+        return buf[:n * 2:2, :m * 2:2], {}
     if form == "lists":
         return [list(r) for r in rows], {"input_is_dense": True}
     if form == "triples":
